@@ -327,13 +327,16 @@ def parse_items(toks: List[Tok], lo: int, hi: int, parent: Optional[Item] = None
 
 
 def _detach_comments(toks: List[Tok], first: int, k: int) -> int:
-    """Given attrs/comments in [first,k), return the start of the *last* contiguous block that is
-    not separated from the item by a blank line."""
+    """Given attrs/comments in [first,k), drop leading comment blocks that are separated from the
+    item by a blank line; attributes always stay attached (even across a blank line)."""
     start = first
+    seen_attr = False
     j = first
     while j < k:
         t = toks[j]
-        if t.kind == "ws" and t.text.count("\n") >= 2:
+        if t.kind == "punct" and t.text == "#":
+            seen_attr = True
+        if t.kind == "ws" and t.text.count("\n") >= 2 and not seen_attr:
             start = j + 1
         j += 1
     while start < k and toks[start].kind == "ws":
